@@ -124,10 +124,24 @@ def rule_R2_R3(ctx):
     n = 0
     for b in bodies[:2]:
         SB = T.Slicer(b, P)
-        ins = [t for _, t in Q.calls(b, "HashMap::<K, V, S, A>::insert")]
+        ent_guarded = []
+        ins = []
+        for iblk, t in Q.calls(b, "HashMap::<K, V, S, A>::insert"):
+            # `if !map.contains_key(&k) { map.insert(k, v) }` is the same first-wins rule written by hand
+            a = Q.call_args(b, SB, iblk, t)
+            guarded = False
+            for c in Q.canon_conds(P, T.dom_conds(b, SB, iblk)):
+                if c[0] == "bool" and c[2] is False and c[1][0] == "call" and c[1][1].endswith("::contains_key") and len(c[1][2]) == 2:
+                    same_map = T.canon_value(T.strip(c[1][2][0])) == T.canon_value(T.strip(a[0]))
+                    same_key = T.pp(T.canon_value(T.strip(c[1][2][1]))) == T.pp(T.canon_value(T.strip(a[1])))
+                    guarded = guarded or (same_map and same_key)
+            if not guarded:
+                ins.append(t)
+            else:
+                ent_guarded.append(t)
         ent = [t for _, t in Q.calls(b, "Entry::<'a, K, V, A>::or_insert")] + [t for _, t in Q.calls(b, "::or_insert_with")]
         n += 1
-        ctx.check(not ins and len(ent) >= 1, "R3", b.name + ":first-wins", "lookup map filled with entry().or_insert (first value kept)",
+        ctx.check(not ins and len(ent) + len(ent_guarded) >= 1, "R3", b.name + ":first-wins", "lookup map filled with entry().or_insert (first value kept)",
                   "lookup map uses insert (last duplicate wins) or no first-wins idiom: host / user-agent / accept-language / server would come from a later duplicate", ctx.loc(b))
     ctx.floor("R3", "lookup maps", n, 2)
 
